@@ -23,7 +23,7 @@ int print_to_with(var out, int pos, const char* fmt, var args) {
   /* print_to at the level String.c may use it: literal text, %%, %c and %s with one argument. A conversion specification without an
    * argument to go with it is what the real print_to answers with FormatError - that is how characters of the value show up when
    * they are handed over as format text */
-  __CPROVER_assert(pos == cv_wpos, "harness: show writes sequentially");
+  __CPROVER_assert(pos == cv_wpos, "[C15] show writes each piece at the position where the previous one ended");
   size_t nargs = len(args), used = 0;
   for (int i = 0; fmt[i] != 0; i++) {
     if (fmt[i] != '%') { STREAM[cv_wpos++] = fmt[i]; continue; }
